@@ -175,6 +175,30 @@ Definition method_scope (tbl : list site) (c m : string) : option texpr :=
   | _ => None          (* no blocking site found, or the first one is unguarded *)
   end.
 
+(* ---- how the timeout attributes are configured.  gen/TimeoutTable.v carries, per class and
+   per timeout expression used by a scope, the constructor parameters __init__ derives the
+   attribute from: [p] for `self.x = p`, [p; q] for `self.x = p or q`.  A scope bounds
+   something only if that chain ends in a parameter the configuration always supplies: the
+   connect / command timeout of the relay clients (they default to 10 s), the command
+   timeout of the server, the single timeout of pipe and HTTP relays.  `data_timeout` alone
+   is optional (default None = no limit): it must fall back. *)
+Definition base_param (p : string) : bool :=
+  String.eqb p "connect_timeout" || String.eqb p "command_timeout" || String.eqb p "timeout".
+
+Definition chain_ok (chain : list string) : bool :=
+  match rev chain with p :: _ => base_param p | [] => false end.
+
+Definition timeouts_have_fallback (tbl : list site) (defs : list (string * texpr * list string)) : bool :=
+  forallb (fun s =>
+             match s_scope s with
+             | Some (e, _) =>
+                 if guard_expr e
+                 then existsb (fun d => String.eqb (fst (fst d)) (s_class s) && texpr_eqb (snd (fst d)) e
+                                        && chain_ok (snd d)) defs
+                 else true
+             | None => true
+             end) tbl.
+
 (* ================================================================= B. server *)
 
 Inductive action : Type := AContinue | AEnterData | AClose.
@@ -390,6 +414,18 @@ Definition smtp_run (cfg : scfg) (input : list (N * bytes)) : list event :=
 Record cstage : Type := mk_cstage { cs_scope : option texpr; cs_waits : nat }.
 
 Record ccfg : Type := { t_connect : N; t_command : N; t_data : N; t_single : N }.
+
+(* SmtpRelayClient.__init__(connect_timeout=10.0, command_timeout=10.0, data_timeout=None):
+   self.data_timeout = data_timeout or command_timeout.  `u` = time units per second.
+   (An explicit None for connect/command means "no limit" and is outside the property.) *)
+Record rawcfg : Type := { r_connect : option N; r_command : option N; r_data : option N }.
+
+Definition eff_ccfg (u : N) (r : rawcfg) : ccfg :=
+  let cmd := match r_command r with Some c => c | None => 10 * u end in
+  {| t_connect := match r_connect r with Some c => c | None => 10 * u end;
+     t_command := cmd;
+     t_data := match r_data r with Some d => if d =? 0 then cmd else d | None => cmd end;
+     t_single := 0 |}.
 
 Definition scope_limit (cfg : ccfg) (sc : option texpr) : option N :=
   match sc with
